@@ -66,6 +66,7 @@ type Term struct {
 	U    uint64   // value of BV / Bool constant
 	Big  *big.Int // value of Int constant
 	Name string   // variable name, or extra (extract/extend parameters)
+	NN   bool     // Int variable constrained to be >= 0 at creation
 	id   int
 }
 
@@ -76,10 +77,37 @@ type TermTable struct {
 	next int
 	vars map[*Term][]int
 	hash map[*Term][16]byte
+	nn   map[*Term]bool
+}
+
+// NonNeg: a cheap syntactic proof that an Int term is >= 0 (used to drop sign case splits).
+func (tt *TermTable) NonNeg(t *Term) bool {
+	if v, ok := tt.nn[t]; ok {
+		return v
+	}
+	r := false
+	switch t.Op {
+	case "const":
+		r = t.Big != nil && t.Big.Sign() >= 0
+	case "var":
+		r = t.NN
+	case "+", "*":
+		r = tt.NonNeg(t.Args[0]) && tt.NonNeg(t.Args[1])
+	case "div":
+		r = tt.NonNeg(t.Args[0]) && t.Args[1].IsConst() && t.Args[1].Big.Sign() > 0
+	case "mod":
+		r = t.Args[1].IsConst() && t.Args[1].Big.Sign() > 0
+	case "ite":
+		r = tt.NonNeg(t.Args[1]) && tt.NonNeg(t.Args[2])
+	case "bv2nat":
+		r = true
+	}
+	tt.nn[t] = r
+	return r
 }
 
 func NewTermTable() *TermTable {
-	return &TermTable{m: map[string]*Term{}, vars: map[*Term][]int{}, hash: map[*Term][16]byte{}}
+	return &TermTable{m: map[string]*Term{}, vars: map[*Term][]int{}, hash: map[*Term][16]byte{}, nn: map[*Term]bool{}}
 }
 
 // Hash is a structural hash of a term, independent of the table it lives in (query cache key).
